@@ -72,7 +72,28 @@ BadEscapeCases(zzdummy) ==
   [i \in DOMAIN BadEscapes |-> [e |-> "lexval", kind |-> "bad", text |-> <<cDQUOTE, 97>> \o BadEscapes[i] \o <<cDQUOTE>>, doc |-> JNull, want |-> JNull]]
   \o [i \in DOMAIN BadEscapes |-> [e |-> "lexval", kind |-> "bad", text |-> <<cBTICK, cDQUOTE>> \o BadEscapes[i] \o <<cDQUOTE, cBTICK>>, doc |-> JNull, want |-> JNull]]
 
-EnumCases(zzdummy) == LET all == SetToSeq(UNION {[1..n -> Alpha] : n \in 0..N}) IN Flat([i \in DOMAIN all |-> CasesOf(all[i])]) \o UidCases(0) \o ScalarCases(0) \o BadEscapeCases(0) \o DeepLitCases(0)
+(* runs of 0..7 backslashes directly before a closing (or an escaped) delimiter in all three quoted forms: a backslash takes the NEXT
+   character with it, so even runs leave the delimiter alone and odd runs escape it.  What each text denotes is what the lexer model
+   says (kind "lex"): the value, or a parse error. *)
+RunDoc == MkObj([k \in 1..6 |-> JMem(<<97>> \o RepSeq(<<cBSLASH>>, k - 1), JInt(k - 1))] \o <<JMem(<<97, cDQUOTE, 98>>, JInt(10)), JMem(<<97, cBSLASH, cDQUOTE, 98>>, JInt(11)),
+                                                                                            JMem(<<97, cBSLASH, cBSLASH, cDQUOTE, 98>>, JInt(12))>>)
+RunTexts(n) == LET bs == RepSeq(<<cBSLASH>>, n) IN
+  << <<cSQUOTE, 97>> \o bs \o <<cSQUOTE>>, <<cSQUOTE, 97>> \o bs \o <<cSQUOTE, 98, cSQUOTE>>, <<cSQUOTE>> \o bs \o <<cSQUOTE>>,
+     <<cDQUOTE, 97>> \o bs \o <<cDQUOTE>>, <<cDQUOTE, 97>> \o bs \o <<cDQUOTE, 98, cDQUOTE>>,
+     <<cBTICK, cDQUOTE, 97>> \o bs \o <<cDQUOTE, cBTICK>>, <<cBTICK, cDQUOTE, 97>> \o bs \o <<cBTICK, 98, cDQUOTE, cBTICK>>,
+     <<cBTICK, cDQUOTE, 97>> \o bs \o <<cDQUOTE, 98, cDQUOTE, cBTICK>>,
+     <<91, cSQUOTE, 97>> \o bs \o <<cSQUOTE, 44, 32, cSQUOTE, 122, cSQUOTE, 93>>,                       \* ['a\..\', 'z']
+     <<97, 32, 61, 61, 32, cSQUOTE, 97>> \o bs \o <<cSQUOTE>> >>                                          \* a == 'a\..\'
+RunCases(zzdummy) == Flat([n \in 1..8 |-> [i \in DOMAIN RunTexts(n - 1) |-> [e |-> "lexval", kind |-> "lex", text |-> RunTexts(n - 1)[i], doc |-> RunDoc, want |-> JNull]]])
+(* an unquoted identifier is ASCII letters, digits and underscores: a character of another plane whose LOW BYTE is one of those is not *)
+UidTails == {256 * k + low : k \in {1, 2, 78, 255, 256, 500}, low \in {48, 57, 65, 90, 95, 97, 122}} \cup {353, 321, 20016, 128097, 170, 181, 186, 8490, 65313, 65345}
+UidBadCases(zzdummy) == LET ts == SetToSeq(UidTails) IN
+  Flat([i \in DOMAIN ts |-> << [e |-> "lexval", kind |-> "bad", text |-> <<97, ts[i]>>, doc |-> JNull, want |-> JNull],
+                                [e |-> "lexval", kind |-> "bad", text |-> <<102, 111, 111, 95, 49, ts[i], 98>>, doc |-> JNull, want |-> JNull],
+                                [e |-> "lexval", kind |-> "bad", text |-> <<ts[i], 97>>, doc |-> JNull, want |-> JNull],
+                                [e |-> "lexval", kind |-> "bad", text |-> <<64, 46, 97, ts[i]>>, doc |-> JNull, want |-> JNull] >>])
+
+EnumCases(zzdummy) == LET all == SetToSeq(UNION {[1..n -> Alpha] : n \in 0..N}) IN Flat([i \in DOMAIN all |-> CasesOf(all[i])]) \o UidCases(0) \o ScalarCases(0) \o BadEscapeCases(0) \o DeepLitCases(0) \o RunCases(0) \o UidBadCases(0)
 SpellCases(zzdummy) == LET ps == ndJsonDeserialize(IOEnv.IN) IN Flat([i \in DOMAIN ps |-> CasesOf(ps[i].s)])
 
 ASSUME ndJsonSerialize(IOEnv.OUT, IF IOEnv.MODE = "enum" THEN EnumCases(0) ELSE SpellCases(0))
